@@ -505,6 +505,17 @@ func enumPathsOpt(f *ssa.Function, limit int, cutLoops bool) ([]upath, bool) {
 						}
 					}
 				}
+				if b, ok := cond.(*ssa.BinOp); ok && !known {
+					// comparison of a value with itself (a phi resolved along this path)
+					if x, y := cur.value(b.X), cur.value(b.Y); x == y && isIntegerType(x.Type()) {
+						switch b.Op {
+						case token.LSS, token.GTR, token.NEQ:
+							known, knownVal = true, false
+						case token.LEQ, token.GEQ, token.EQL:
+							known, knownVal = true, true
+						}
+					}
+				}
 				for k, s := range p.b.Succs {
 					val := k == 0
 					if neg {
